@@ -1,9 +1,10 @@
 (* translate/r2c tie, round 3 (4): MockDisplay::get_pixel / set_pixel_unchecked / set_pixel / set_allow_* (src/mock_display/mod.rs).
-   The pixel array `[Option<C>; SIZE * SIZE]` is a list of options (`self.pixels[i]` = Casts.slice_nth None, `self.pixels[i] = v`
-   = Casts.slice_set); the model (Model/Mockdisplay.v) keeps the cells in a finite map and makes panics explicit.
-   `drepr s d`: the generated display s represents the model display d.  On representing displays get_pixel agrees, and
-   whenever the model's set_pixel_unchecked / set_pixel does not panic the generated one yields a representing display
-   (`assert!` is not translated: it only panics). *)
+   The pixel array `[Option<C>; SIZE * SIZE]` is a list of options (`self.pixels[i]` = Casts.slice_get, None out of range; `self.pixels[i] = v`
+   = Casts.slice_set under the range test); the model (Model/Mockdisplay.v) keeps the cells in a finite map and makes panics explicit.
+   `drepr s d`: the generated display s represents the model display d.  The generated functions are partial (`option`): None is
+   a Rust panic (`assert!`, array index out of range).  `res_rel R o r`: the generated result o and the model result r panic
+   together (None / Panic k) or are both values related by R.  On representing displays get_pixel, set_pixel_unchecked and
+   set_pixel are res_rel-related to the model's. *)
 From EG Require Import Base.Prelude Base.Casts Model.Geometry Gen.MockConsts Model.Mockdisplay Gen.SrcGeometry Gen.SrcMock.
 From Coq Require Import FMapPositive.
 Set Default Timeout 60.
@@ -17,8 +18,28 @@ Definition drepr (s : MockDisplay) (d : display) : Prop :=
 Lemma src_SIZE_eq : src_SIZE = SIZE.
 Proof. reflexivity. Qed.
 
+(* a generated partial function (None = the Rust function panics) against a model result (Panic k) *)
+Definition res_rel {A B} (R : A -> B -> Prop) (o : option A) (r : result B) : Prop :=
+  match o, r with Some a, Ok b => R a b | None, Panic _ => True | _, _ => False end.
+Lemma res_rel_panic {A B} (R : A -> B -> Prop) o r : res_rel R o r -> ((exists k, r = Panic k) <-> o = None).
+Proof.
+  destruct o as [a|], r as [b|k]; cbn; intros H; try contradiction; split; intros E; try reflexivity; try discriminate.
+  - destruct E as [k E]. discriminate.
+  - exists k. reflexivity.
+Qed.
+Lemma res_rel_ok {A B} (R : A -> B -> Prop) o r b : res_rel R o r -> r = Ok b -> exists a, o = Some a /\ R a b.
+Proof. destruct o as [a|], r as [b'|k]; cbn; intros H E; try contradiction; try discriminate. injection E as <-. exists a. split; [reflexivity|exact H]. Qed.
+Lemma res_rel_some {A B} (R : A -> B -> Prop) o r a : res_rel R o r -> o = Some a -> exists b, r = Ok b /\ R a b.
+Proof. destruct o as [a'|], r as [b|k]; cbn; intros H E; try contradiction; try discriminate. injection E as <-. exists b. split; [reflexivity|exact H]. Qed.
+
+Lemma slice_get_nth {A} (l : list A) i d : 0 <= i < Z.of_nat (length l) -> Casts.slice_get l i = Some (nth (Z.to_nat i) l d).
+Proof.
+  intros H. unfold Casts.slice_get. rewrite (proj2 (Z.leb_le 0 i)) by lia.
+  rewrite (proj2 (Z.ltb_lt i _)) by lia. cbn [andb]. apply nth_error_nth'. lia.
+Qed.
+
 Lemma src_mock_get_pixel_eq s d p : drepr s d ->
-  Ok (src_MockDisplay_get_pixel s p) = get_pixel d p.
+  res_rel eq (src_MockDisplay_get_pixel s p) (get_pixel d p).
 Proof.
   intros [[HL HR] _]. destruct p as [x y]. unfold src_MockDisplay_get_pixel, get_pixel. cbn [px py].
   change (Casts.cast_usize_i32 src_SIZE) with 64. change src_SIZE with 64. change SIZE with 64.
@@ -28,8 +49,8 @@ Proof.
   rewrite !Casts.cast_i32_usize_id by lia.
   unfold arr_get, in_array, NCELLS. change SIZE with 64.
   rewrite (proj2 (Z.leb_le 0 (x + y * 64))) by lia. rewrite (proj2 (Z.ltb_lt (x + y * 64) (64 * 64))) by lia. cbn [andb].
-  unfold Casts.slice_nth. rewrite (proj2 (Z.leb_le 0 (x + y * 64))) by lia.
-  rewrite HR by (unfold NCELLS; change SIZE with 64; lia). reflexivity.
+  rewrite (slice_get_nth _ _ None) by (rewrite HL; unfold NCELLS; change SIZE with 64; lia).
+  cbn. apply HR. unfold NCELLS; change SIZE with 64; lia.
 Qed.
 
 Lemma set_nat_length {A} (l : list A) n v : length (Casts.slice_set_nat l n v) = length l.
@@ -65,26 +86,42 @@ Proof.
     + rewrite cell_put_other by lia. apply HR. exact Hj.
 Qed.
 
-Lemma src_mock_set_pixel_unchecked_ok s d p v d' : drepr s d ->
-  i32_min <= px p <= i32_max -> i32_min <= py p <= i32_max ->
-  set_pixel_unchecked d p v = Ok d' -> drepr (src_MockDisplay_set_pixel_unchecked s p v) d'.
+(* set_pixel_unchecked: `self.pixels[i as usize] = color`; the index panic of Rust is the model's Panic PIndex (for an i32
+   index; `x + y * SIZE` is exact in the model) *)
+Lemma src_mock_set_pixel_unchecked_rel s d p v : drepr s d ->
+  i32_min <= px p + py p * SIZE <= i32_max ->
+  res_rel drepr (src_MockDisplay_set_pixel_unchecked s p v) (set_pixel_unchecked d p v).
 Proof.
-  intros [HR [Ho Hb]] Hx Hy. unfold set_pixel_unchecked, arr_set, src_MockDisplay_set_pixel_unchecked.
-  change (Casts.cast_usize_i32 src_SIZE) with 64. change SIZE with 64.
-  destruct (in_array (px p + py p * 64)) eqn:E; [|discriminate]. cbn [bind]. intros [= <-].
-  unfold in_array in E. apply andb_prop in E. destruct E as [E1 E2]. apply Z.leb_le in E1. apply Z.ltb_lt in E2.
-  unfold NCELLS in E2. change SIZE with 64 in E2.
-  rewrite Casts.cast_i32_usize_id by lia.
-  split; [|split; assumption]. cbn [MockDisplay_pixels cells].
-  apply repr_set; [exact HR|]. unfold NCELLS. change SIZE with 64. lia.
+  intros [HR [Ho Hb]] Hi. unfold set_pixel_unchecked, arr_set, src_MockDisplay_set_pixel_unchecked. cbv zeta.
+  change (Casts.cast_usize_i32 src_SIZE) with 64. change SIZE with 64 in *.
+  destruct HR as [HL HR']. rewrite HL. unfold in_array, NCELLS. change SIZE with 64.
+  set (i := px p + py p * 64) in *.
+  destruct (Z.leb_spec 0 i) as [H0|H0].
+  - rewrite Casts.cast_i32_usize_id by (unfold i32_max in Hi; lia).
+    rewrite (proj2 (Z.leb_le 0 i)) by lia. cbn [andb].
+    destruct (Z.ltb_spec i (64 * 64)) as [H1|H1]; cbn [bind res_rel]; [|exact I].
+    split; [|split; assumption]. cbn [MockDisplay_pixels cells].
+    apply repr_set; [exact (conj HL HR')|]. unfold NCELLS. change SIZE with 64. lia.
+  - cbn [andb bind res_rel].
+    assert (E : Casts.cast_i32_usize i = i + 2 ^ 64).
+    { unfold Casts.cast_i32_usize, Casts.wrap_usize, Casts.wrap_unsigned.
+      rewrite <- (Z.mod_add i 1 (2 ^ 64)) by lia. rewrite Z.mul_1_l. apply Z.mod_small. unfold i32_min in Hi. lia. }
+    rewrite E. unfold i32_min in Hi.
+    rewrite (proj2 (Z.leb_le 0 _)) by lia. rewrite (proj2 (Z.ltb_ge _ _)) by lia. exact I.
 Qed.
 
-Lemma src_mock_set_pixel_ok s d p v d' : drepr s d ->
+Lemma src_mock_set_pixel_rel s d p v : drepr s d ->
   i32_min <= px p <= i32_max -> i32_min <= py p <= i32_max ->
-  set_pixel d p v = Ok d' -> drepr (src_MockDisplay_set_pixel s p v) d'.
+  res_rel drepr (src_MockDisplay_set_pixel s p v) (set_pixel d p v).
 Proof.
-  intros H Hx Hy. unfold set_pixel. destruct (_ && _)%bool; [|discriminate].
-  apply (src_mock_set_pixel_unchecked_ok s d p v d' H Hx Hy).
+  intros H Hx Hy. unfold set_pixel.
+  change (src_MockDisplay_set_pixel s p v) with
+    (if ((((0 <=? px p) && (0 <=? py p)) && (px p <? Casts.cast_usize_i32 src_SIZE)) && (py p <? Casts.cast_usize_i32 src_SIZE))%bool
+     then src_MockDisplay_set_pixel_unchecked s p v else None).
+  change (Casts.cast_usize_i32 src_SIZE) with 64. change SIZE with 64. rewrite !Z.geb_leb.
+  destruct (Z.leb_spec 0 (px p)); [|exact I]. destruct (Z.leb_spec 0 (py p)); [|exact I].
+  destruct (Z.ltb_spec (px p) 64); [|exact I]. destruct (Z.ltb_spec (py p) 64); [|exact I]. cbn [andb].
+  apply src_mock_set_pixel_unchecked_rel; [exact H|]. change SIZE with 64. unfold i32_min, i32_max. lia.
 Qed.
 
 Lemma src_mock_set_allow_oob_eq s d b : drepr s d -> drepr (src_MockDisplay_set_allow_out_of_bounds_drawing s b) (set_allow_oob d b).
